@@ -192,6 +192,7 @@ type c14file struct {
 	model    []byte // what the model sees (spz: the decompressed stream)
 	ascii    bool
 	streamed bool
+	onePoint bool // PTS file declaring one point: a cut first line with >= 3 fields is a valid file of fewer fields
 	read     c14reader
 	label    string
 }
@@ -324,7 +325,11 @@ func (c *Ctx) c14drive(f c14file) {
 			}
 		}
 		if isOk && (!f.ascii || c14tokenBoundary(f.data, k)) && (!f.streamed || k%7 == 0 || k > len(f.data)-40) {
-			c.Emit("c14.holds.prefix_only", fmt.Sprintf("%s %s %d %s | %s", f.format, c14b(f.streamed), k, full.sum, r.sum), "true")
+			mode := c14b(f.streamed) // 0 complete (every attribute of the full decode), 1 streamed
+			if f.onePoint {
+				mode = "2" // restricted: attributes may be missing (pts_prefix, clause 4)
+			}
+			c.Emit("c14.holds.prefix_only", fmt.Sprintf("%s %s %d %s | %s", f.format, mode, k, full.sum, r.sum), "true")
 		}
 		if r.class == "timeout" {
 			c.c14flushExit()
@@ -812,7 +817,7 @@ func runC14(c *Ctx) {
 			n := []int{0, 1, 1, 2, 3, 7, 25}[c.Rng.Intn(7)]
 			fields := []int{3, 4, 7}[c.Rng.Intn(3)]
 			data := c.c14ptsText(n, fields, c.Rng.Intn(5) == 0, c.Rng.Intn(3) != 0)
-			c.c14drive(c14file{format: "pts", data: data, model: data, ascii: true, read: c14readPts, label: fmt.Sprintf("pts.%dfields", fields)})
+			c.c14drive(c14file{format: "pts", data: data, model: data, ascii: true, onePoint: n == 1, read: c14readPts, label: fmt.Sprintf("pts.%dfields", fields)})
 		}
 
 		// --- SPZ: cut the compressed stream ---------------------------------------------------------------------------
